@@ -52,12 +52,23 @@ func Check() *core.Check {
 			if tier == "thorough" {
 				return 400000
 			}
-			return 30000
+			return 20000
 		},
 		MinConclusive: func(tier string) int { return 2000 },
 		NumPinned:     len(pinned),
 		CaseTimeoutS:  60,
 		Run:           run,
+		Post: func(p *core.PostCtx) {
+			c := p.Stats.Counters
+			if v := c["variants"]; v > 0 {
+				p.Evidence["fraction_variants_with_differing_bytecode"] = float64(c["variants_bytecode_differs"]) / float64(v)
+			}
+			if n := c["l2_interpretations"]; n > 0 {
+				p.Evidence["fraction_interpretations_in_domain"] = float64(c["l2_compared"]) / float64(n)
+			}
+			p.Evidence["placements"] = []string{"global", "function", "direct-eval", "indirect-eval"}
+			p.Evidence["rewrite_catalogue"] = "R1 const<->var/(0,c), R2 capture by uncalled closure, R3 eval(\"\"), R4 with({}), R5 arguments, R6 expression<->statement, R7 unreachable code / constant-condition wrappers, R8 block/label/IIFE, R9 eval(toString), R10 let<->var, R11 for<->while, R12 (a)<->([a])"
+		},
 	}
 }
 
@@ -197,7 +208,7 @@ func run(c *core.Ctx) core.Result {
 	st := c.Stats
 	strict := r.Bool()
 	alt := r.Bool()
-	g := refjs.NewGen(r.Fork(), refjs.GenOpts{Strict: strict, VarOverPatternParam: noExclusions})
+	g := refjs.NewGen(r.Fork(), genOpts(strict))
 	P := g.Program()
 	if strict {
 		P.F |= refjs.FStrict
@@ -320,7 +331,7 @@ func run(c *core.Ctx) core.Result {
 	}
 	res.NonTrivial = differing && maxEvents >= 3
 	if res.NonTrivial && st.WantSample() && c.Index%97 == 0 {
-		st.Sample(map[string]any{"strict": strict, "program": core.Trunc(srcP, 1500), "events_global": len(orig[0].Events)})
+		st.Sample(map[string]any{"strict": strict, "program": core.Trunc(srcP, 1500), "events": maxEvents})
 	}
 	return res
 }
@@ -329,6 +340,23 @@ func run(c *core.Ctx) core.Result {
 
 func violation(c *core.Ctx, P *refjs.Node, vr *variant, pl refjs.Placement, alt bool, pc cmp, o, vo *Obs) core.Result {
 	strict := P.Has(refjs.FStrict)
+	if strings.HasPrefix(pc.monitor, "harness-") && c.Index >= 0 {
+		// the engine itself misbehaved (Go panic, VM not idle) on one text: minimise that text alone
+		Q := P
+		if vr != nil && pc.monitor == "harness-variant" {
+			Q = vr.q
+		}
+		Q = minimiseCrash(Q, pl, alt)
+		src := render(Q, pl, alt)
+		ob := RunGoja(src, RunOpts{Fuel: origFuel, MaxStack: variantStack})
+		if ob.Harness != "" {
+			first := strings.SplitN(ob.Harness, "\n", 2)[0]
+			return core.Result{Verdict: core.Violated, NonTrivial: true, Key: refjs.Print(P), Monitor: pc.monitor,
+				Detail:    first + "\n--- program (" + pl.String() + ") ---\n" + src + "\n--- harness detail ---\n" + core.Trunc(ob.Harness, 2500),
+				Signature: "C02|crash|" + pl.String() + "|" + refjs.PrintFlat(refjs.Instantiate(Q, pl, alt)),
+				Case:      caseRec{Strict: strict, Placement: pl.String(), Original: src, Observed: first}}
+		}
+	}
 	if vr != nil && c.Index >= 0 {
 		P, vr = minimise(P, vr, pl, alt, pc.monitor)
 		// recompute the observations of the minimised witness
@@ -382,7 +410,7 @@ func still(P *refjs.Node, kinds []refjs.RewriteKind, seed uint64, pl refjs.Place
 }
 
 func minimise(P *refjs.Node, vr *variant, pl refjs.Placement, alt bool, monitor string) (*refjs.Node, *variant) {
-	budget := 300
+	budget := 900
 	// fewer rewrites first
 	if len(vr.kinds) > 1 {
 		for i := range vr.kinds {
@@ -423,4 +451,38 @@ func minimise(P *refjs.Node, vr *variant, pl refjs.Placement, alt bool, monitor 
 		}
 	}
 	return P, vr
+}
+
+// minimiseCrash shrinks a program on which goja itself misbehaves (harness problem) while it still does.
+func minimiseCrash(Q *refjs.Node, pl refjs.Placement, alt bool) *refjs.Node {
+	budget := 1500
+	bad := func(cand *refjs.Node) bool {
+		if cand == nil || budget <= 0 {
+			return false
+		}
+		budget--
+		o := RunGoja(render(cand, pl, alt), RunOpts{Fuel: origFuel, MaxStack: variantStack})
+		return o.Harness != ""
+	}
+	for progress := true; progress && budget > 0; {
+		progress = false
+		for k := refjs.CountStmts(Q) - 1; k >= 0 && budget > 0; k-- {
+			if cand := refjs.DeleteStmt(Q, k); bad(cand) {
+				Q, progress = cand, true
+			} else if cand := refjs.UnwrapStmt(Q, k); bad(cand) {
+				Q, progress = cand, true
+			}
+		}
+	}
+	for k := 0; k < 200 && budget > 0; k++ {
+		cand := refjs.SimplifyExpr(Q, k)
+		if cand == nil {
+			break
+		}
+		if bad(cand) {
+			Q = cand
+			k--
+		}
+	}
+	return Q
 }
